@@ -34,6 +34,8 @@ OffRows(rows, d) == [j \in 1..Len(rows) |-> [k \in 1..Len(rows[j]) |->
                        IF rows[j][k].t = "obj" THEN ObjV(rows[j][k].v - d) ELSE rows[j][k]]]
 SameRowSet(a, b) == (\A j \in 1..Len(a) : HasRow(b, a[j])) /\ (\A j \in 1..Len(b) : HasRow(a, b[j]))
 
+SameRowBag(a, b) == Len(a) = Len(b) /\ \A j \in 1..Len(a) : CountIn(a, a[j]) = CountIn(b, a[j])
+
 SameInst(x, y) == x.cls = y.cls /\ SameRow(x.f, y.f)
 InstCount(s, x) == Cardinality({j \in 1..Len(s) : SameInst(s[j], x)})
 InferVerdict(exp, obs) ==
@@ -55,12 +57,16 @@ EvVerdict(t, j) ==
                  IN IF v # "ok" THEN v
                     ELSE IF ev.eqto > 0 /\ ~SameRowSet(OffRows(ev.rows, ev.eqoff), t.evs[ev.eqto].rows)
                          THEN "rows.differs-from-twin"
+                    ELSE IF ev.eqbag > 0 /\ ~SameRowBag(ev.rows, t.evs[ev.eqbag].rows)
+                         THEN "rows.differs-from-earlier-evaluation"
+                    ELSE IF ev.mutated THEN "user-data.mutated"
                     ELSE "ok"
        [] ev.op = "partial" ->
             IF ev.exc # "none" THEN "exception"
             ELSE PrefixVerdict(CompareMode(q), RowSeq(q, W), ev.rows)
        [] ev.op = "raised" ->
-            IF ev.exc # ev.want THEN "exception.class"
+            IF ev.exc = "none" THEN RowsVerdict(CompareMode(q), RowSeq(q, W), ev.rows)   \* the fault did not fire
+            ELSE IF ev.exc # ev.want THEN "exception.class"
             ELSE PrefixVerdict(CompareMode(q), RowSeq(q, W), ev.rows)
        [] ev.op = "the" ->
             LET o == TheOutcome(q, W)
